@@ -5,6 +5,24 @@ V = os.path.dirname(os.path.dirname(os.path.abspath(__file__)))
 PY = "PYTHONPATH=/repo PYTHONHASHSEED=0 /venv/bin/python"
 
 CHECKS = {
+ "C01": dict(
+   text="Nine theorems: every integrator program is a palindrome (any arithmetic); drift and kick times each sum to stepsize*steps for all literals, and a "
+        "single random factor scales them uniformly; a general reversibility theorem for drift/kick programs; its instances for unbounded targets (any "
+        "dimension, any gradient field, any odd kinetic gradient = Unit/Diagonal/Full) and for mirror reflection at boxes with coordinate-wise masses "
+        "under single-bounce drifts; determinant 1 of the tangent map of every program incl. reflections (mathcomp, any dimension). Tie: (static) the "
+        "schedules are re-extracted from Samplers.py by a fail-closed AST translator on every run and proved equal to the model by reflexivity; (dynamic) "
+        "bit-exact co-execution of the real propagators and of HMC_visual with call-by-call argument comparison; numerical reversal / time-sum oracles.",
+   note="Trusted: Coq kernel, stdlib real axioms + functional extensionality, mathcomp; the AST translator harness/schedule_ast.py; the tangent program is "
+        "the chain-rule derivative by definition. Two known findings: Full mass + reflection, multi-bounce overshoot (property false there).",
+   technique="Coq proof (palindrome + reversibility + mathcomp determinant) + AST-generated model + bit-exact co-execution", ref="5/C01"),
+ "C06": dict(
+   text="Eight theorems: +inf misfit outside / unchanged inside (extended reals); update_bounds atomic and ordered; the corrector mirrors exactly the violating "
+        "coordinates and negates exactly their momenta, conserving sum p_i^2/m_i; every column stored by either sampler started inside lies inside with finite "
+        "misfit for every integrator, mass matrix, step size and random stream (invariant of the loop model, uses the NaN/+inf rejection lemma). Tie: "
+        "co-execution of update_bounds / misfit_bounds / corrector (own, BayesRule-collapsed, Composite per-block bounds) and complete runs with steps 1e-6..1e12.",
+   note="Trusted: Coq kernel, stdlib real axioms; harness; numpy fancy-indexed in-place updates. Hypothesis of the chain theorem: the unbounded part of the "
+        "misfit is finite (true of the built-in Normal/Uniform/Laplace targets used in the runs).",
+   technique="Coq proof (coordinate-wise mirror lemmas + loop invariant) + co-execution and full runs", ref="5/C06"),
  "C08": dict(
    text="Fault model of the sampling loop: for every sampler, thinning, event stream, fault site (every external call of the run, entry/exit of the "
         "sample store of every proposal, time check after every proposal) and fault kind, the stored columns are the leading columns of the "
